@@ -90,6 +90,10 @@ func init() {
 				out = kdf.Kdf(sm3.New, z, n)
 			case "iface":
 				out = sm3.New().(kdf.KdfInterface).Kdf(z, n)
+			case "marsh":
+				out = kdf.Kdf(func() hash.Hash { return &marshOnlyHash{sm3.New()} }, z, n)
+			case "plain":
+				out = kdf.Kdf(func() hash.Hash { return plainHash{sm3.New()} }, z, n)
 			default:
 				panic("harness: sm3kdf: unknown via")
 			}
@@ -99,4 +103,17 @@ func init() {
 		}
 		return nil
 	})
+}
+
+// plainHash hides every optional interface of the wrapped hash (KdfInterface, state export): kdf.Kdf takes its plain loop.
+type plainHash struct{ hash.Hash }
+
+// marshOnlyHash hides KdfInterface but forwards the state export/import: kdf.Kdf takes its absorb-once branch.
+type marshOnlyHash struct{ hash.Hash }
+
+func (h *marshOnlyHash) MarshalBinary() ([]byte, error) {
+	return h.Hash.(encoding.BinaryMarshaler).MarshalBinary()
+}
+func (h *marshOnlyHash) UnmarshalBinary(b []byte) error {
+	return h.Hash.(encoding.BinaryUnmarshaler).UnmarshalBinary(b)
 }
